@@ -45,6 +45,15 @@ func c08Arg(r *rand.Rand, marker string) string {
 	}
 }
 
+// c08JSONSafe: what encoding/json prints for a string (every invalid UTF-8 byte becomes U+FFFD).
+func c08JSONSafe(s string) string {
+	var b strings.Builder
+	for _, r := range s { // ranging yields RuneError once per invalid byte
+		b.WriteRune(r)
+	}
+	return b.String()
+}
+
 func c08Eq(a, b []string) bool {
 	if len(a) == 0 && len(b) == 0 {
 		return true
@@ -149,6 +158,9 @@ func engineNotebook(ctx *Ctx) {
 				e.Command = "x"
 			}
 			e.Description = c08Arg(r, " "+marker+" ")
+			if !strings.Contains(e.Description, marker) {
+				e.Description += " " + marker
+			}
 			if r.Intn(3) == 0 {
 				e.Niche = c08Simple(r)
 			}
@@ -312,7 +324,7 @@ func engineNotebook(ctx *Ctx) {
 				found := false
 				if present && wf {
 					for _, it := range items {
-						if it.Command == e.Command && it.Description == e.Description {
+						if it.Command == c08JSONSafe(e.Command) && it.Description == c08JSONSafe(e.Description) {
 							found = true
 						}
 					}
